@@ -11,5 +11,6 @@ CONSTANTS
   DEV_NestedDstFsPath = FALSE
   DEV_LinkValidatedOnDisk = FALSE
   DEV_DerefSpecial = FALSE
+  DEV_DirEntryByOwnPath = FALSE
 INVARIANT TypeOK
 CHECK_DEADLOCK FALSE
